@@ -189,6 +189,10 @@ func c04Families(c *Check) []BashCase {
 		"for3-len-of-growing-slice": {def("q", SliceLit{TInt, []Expr{il(1)}}), For{Kind: ForThree, Init: def("i", il(0)), Cond: cmp("<", vr("i"), Len{vr("q")}), Post: IncDec{"i", true}, Body: []Stmt{ifs(cmp("<", Len{vr("q")}, il(4)), SliceSet{"q", Len{vr("q")}, bin("+", vr("i"), il(10))}), pr(sl("body"), vr("i"), Len{vr("q")})}}, pr(Len{vr("q")})},
 		"for3-len-of-growing-string": {def("w", sl("a")), For{Kind: ForThree, Init: def("i", il(0)), Cond: cmp("<", vr("i"), Len{vr("w")}), Post: IncDec{"i", true}, Body: []Stmt{ifs(cmp("<", Len{vr("w")}, il(4)), OpAssign{"w", "+", sl("b")}), pr(sl("body"), vr("i"), vr("w"))}}},
 		"for3-bound-variable-changes": {def("lim", il(2)), For{Kind: ForThree, Init: def("i", il(0)), Cond: cmp("<", vr("i"), vr("lim")), Post: IncDec{"i", true}, Body: []Stmt{ifs(cmp("==", vr("i"), il(1)), set("lim", il(4))), pr(sl("body"), vr("i"))}}},
+		// the measured slice grows inside a callee (through a parameter, through a global): nothing in the loop's own text assigns it
+		"for3-len-grown-by-callee-param":  {fn("grow", []Param{{"v", TSliceInt}}, nil, ifs(cmp("<", Len{vr("v")}, il(4)), SliceSet{"v", Len{vr("v")}, bin("*", Len{vr("v")}, il(3))})), def("q", SliceLit{TInt, []Expr{il(1)}}), For{Kind: ForThree, Init: def("i", il(0)), Cond: cmp("<", vr("i"), Len{vr("q")}), Post: IncDec{"i", true}, Body: []Stmt{callS("grow", vr("q")), pr(sl("body"), vr("i"), Len{vr("q")})}}, pr(Len{vr("q")})},
+		"for3-len-grown-by-callee-global": {def("work", SliceLit{TString, []Expr{sl("a")}}), fn("more", nil, nil, ifs(cmp("<", Len{vr("work")}, il(3)), SliceSet{"work", Len{vr("work")}, sl("n")})), For{Kind: ForThree, Init: def("i", il(0)), Cond: cmp("<", vr("i"), Len{vr("work")}), Post: IncDec{"i", true}, Body: []Stmt{callS("more"), pr(sl("body"), vr("i"))}}, pr(Len{vr("work")})},
+		"cond-len-grown-by-callee-result":  {def("text", sl("a")), fn("longer", []Param{{"w", TString}}, []Type{TString}, ret(bin("+", vr("w"), sl("b")))), def("i", il(0)), For{Kind: ForCond, Cond: cmp("<", vr("i"), Len{vr("text")}), Body: []Stmt{ifs(cmp("<", Len{vr("text")}, il(4)), set("text", call("longer", vr("text")))), IncDec{"i", true}, pr(sl("body"), vr("i"))}}},
 		"for3-call-bound":         {For{Kind: ForThree, Init: def("i", il(0)), Cond: cmp("<", vr("i"), T(3)), Post: IncDec{"i", true}, Body: []Stmt{pr(sl("body"), vr("i"))}}},
 		"for3-len-of-slice-call":  {For{Kind: ForThree, Init: def("i", il(0)), Cond: cmp("<", vr("i"), Len{call("sli", il(1))}), Post: IncDec{"i", true}, Body: []Stmt{pr(sl("body"), vr("i"))}}},
 		"for3-post-calls":         {For{Kind: ForThree, Init: def("i", T(0)), Cond: cmp("<", vr("i"), il(3)), Post: OpAssign{"i", "+", T(1)}, Body: []Stmt{pr(sl("body"), vr("i"))}}},
@@ -197,7 +201,15 @@ func c04Families(c *Check) []BashCase {
 	}
 	for _, k := range sortedStmtKeys(loops) {
 		cases = append(cases, BashCase{Key: "E/loop-cond/" + k + "/top", Prog: SingleFile(append(append(c04Prelude(), loops[k]...), final))})
-		cases = append(cases, BashCase{Key: "E/loop-cond/" + k + "/func", Prog: SingleFile(append(c04Prelude(), fn("ctx", nil, nil, loops[k]...), callS("ctx"), callS("ctx"), final))})
+		// inside a function: function definitions of the case, and the globals defined before them, stay at top level
+		lastFn := -1
+		for i, st := range loops[k] {
+			if _, isFn := st.(FuncDecl); isFn {
+				lastFn = i
+			}
+		}
+		hoisted, inner := loops[k][:lastFn+1], loops[k][lastFn+1:]
+		cases = append(cases, BashCase{Key: "E/loop-cond/" + k + "/func", Prog: SingleFile(append(append(c04Prelude(), hoisted...), fn("ctx", nil, nil, inner...), callS("ctx"), callS("ctx"), final))})
 	}
 	// switches whose case expressions repeat textually: each one is still evaluated (the calls differ in effect)
 	sw := map[string][]Stmt{
@@ -295,6 +307,10 @@ func c04Families(c *Check) []BashCase {
 		"slice-write-growth":            {SliceSet{"xs", bin("+", T(5), T(2)), T(3)}, pr(Len{vr("xs")}, Index{"xs", il(7)}, Index{"xs", il(6)})},
 		"print-many":                    {pr(T(1), Sf(2, "two"), Bf(3, true), bin("+", T(4), T(5)))},
 		"multi-assign-order":            {def("p", il(0)), def("q", il(0)), Assign{[]string{"p", "q"}, []Expr{T(1), T(2)}}, pr(vr("p"), vr("q"))},
+		// functions that do nothing (empty body, or only a return): their arguments are evaluated all the same
+		"stub-function-arguments":       {fn("stub", []Param{{"a", TInt}, {"b", TString}}, nil), callS("stub", T(1), Sf(2, "x")), callS("stub", bin("+", T(3), T(4)), sl("lit")), pr(sl("after"))},
+		"stub-function-with-result":     {fn("zero", []Param{{"a", TInt}}, []Type{TInt}, ret(il(0))), pr(call("zero", T(1)), bin("+", call("zero", T(2)), T(3))), callS("zero", T(4))},
+		"stub-function-in-conditions":   {fn("yes", []Param{{"a", TInt}}, []Type{TBool}, ret(bl(true))), fn("nop", nil, nil), If{Branches: []IfBranch{{call("yes", T(1)), []Stmt{callS("nop"), pr(sl("A"))}}, {call("yes", T(2)), []Stmt{pr(sl("B"))}}}}, forUp("k", 2, callS("nop"), ExprStmt{call("yes", T(5))})},
 		"args-with-global-effects":      {pr(call("f3", T(1), T(2), T(3)), call("f3", T(4), T(5), T(6)))},
 		"call-statement-args":           {callS("f3", T(1), T(2), T(3)), callS("t", T(4))},
 		"return-values-order":           {fn("rv", nil, []Type{TInt, TString, TBool}, ret(T(1), Sf(2, "s"), Bf(3, true))), VarDecl{Names: []string{"r1", "r2", "r3"}, Short: true, Values: []Expr{call("rv")}}, pr(vr("r1"), vr("r2"), vr("r3"))},
@@ -303,7 +319,7 @@ func c04Families(c *Check) []BashCase {
 	for _, k := range sortedStmtKeys(ctl) {
 		cases = append(cases, BashCase{Key: "E/ctl/" + k, Prog: SingleFile(append(append(c04Prelude(), ctl[k]...), final))})
 		stm := append(c04Prelude(), fn("ctx", nil, nil, ctl[k]...), callS("ctx"), final)
-		if k != "return-values-order" && k != "condition-in-function-loop" && k != "elseif-behind-return" && k != "cases-behind-return" {
+		if k != "return-values-order" && k != "condition-in-function-loop" && k != "elseif-behind-return" && k != "cases-behind-return" && !strings.HasPrefix(k, "stub-function") {
 			cases = append(cases, BashCase{Key: "E/ctl/" + k + "/func", Prog: SingleFile(stm)})
 		}
 	}
